@@ -110,18 +110,18 @@ Theorem C06_drivermode_refuted :
    dhist_supported dinit h = false /\ confirm_of (get (fst (run_dhist dinit h)) 1) = 2) /\
   (let h := [DDrv 1 Rollback None] in
    dhist_supported dinit h = false /\ get (fst (run_dhist dinit h)) 1 = mkC (Some Suspended) (0, 0, 1)) /\
-  (let h := [DDrv 1 Prepare (Some 6%nat)] in
+  (let h := [DDrv 1 Prepare (Some 7%nat)] in
    dhist_supported dinit h = false /\ get (fst (run_dhist dinit h)) 1 = mkC None (1, 0, 0)).
 Proof. exact drv_refuted. Qed.
 
-(* the business COMMIT fails (operation 5 of a prepare): supported, nothing durable, lock leaked, the next
+(* the business COMMIT fails (operation 6 of a prepare): supported, nothing durable, lock leaked, the next
    delivery times out on it and changes nothing *)
 Example C06_drivermode_business_commit_fault :
-  let h := [DDrv 1 Prepare (Some 5%nat); DDrv 1 Prepare None; DApi 1 Rollback None] in
+  let h := [DDrv 1 Prepare (Some 6%nat); DDrv 1 Prepare None; DApi 1 Rollback None] in
   dhist_supported dinit h = true /\
-  run_dhist dinit [DDrv 1 Prepare (Some 5%nat)] = ([(1, mkC None (0, 0, 0))], [1]) /\
+  run_dhist dinit [DDrv 1 Prepare (Some 6%nat)] = ([(1, mkC None (0, 0, 0))], [1]) /\
   get (fst (run_dhist dinit h)) 1 = mkC None (0, 0, 0) /\
-  t_err (fst (dop_run (run_dhist dinit [DDrv 1 Prepare (Some 5%nat)]) (DDrv 1 Prepare None))) = ELocked.
+  t_err (fst (dop_run (run_dhist dinit [DDrv 1 Prepare (Some 6%nat)]) (DDrv 1 Prepare None))) = ELocked.
 Proof. exact business_commit_fault_example. Qed.
 
 Example C06_drivermode_nonvacuous :
